@@ -1,4 +1,5 @@
 pub mod c11;
+pub mod det;
 pub mod natcat;
 pub mod sem;
 
@@ -16,6 +17,7 @@ pub fn dispatch(mode: &str, engine: &str, rest: &[String]) -> anyhow::Result<()>
         ("record", "sess") => sem::record_sessions(rest),
         ("record", "natcat") => natcat::record(rest),
         ("record", "opt") => sem::record_opt(rest),
+        ("record", "det") => det::record(rest),
         _ => anyhow::bail!("unknown mode/engine {} {}", mode, engine),
     }
 }
